@@ -26,6 +26,9 @@ types = [
     {"enum": dict(named("Color"), Symbols=["RED", "GREEN", "BLUE"], SymbolToDoc={})},
     {"fixed": dict(named("Fx"), Size=4)},
     {"typeref": dict(named("Name"), type="string", isCustom=False)},
+    # custom typerefs: hand-written Go (family/custom/fam/*.go) is placed beside the generated code before generation
+    {"typeref": dict(named("Temp"), type="int32", isCustom=False)},
+    {"typeref": dict(named("Stamp"), type="string", isCustom=False)},
     record("Inner", [field("a", prim("string")), field("b", prim("int64"), optional=True)]),
     {"standaloneUnion": dict(named("Choice"), Union={"HasNull": False, "Members": [
         {"Type": prim("int32"), "Alias": "int"},
@@ -52,6 +55,8 @@ types = [
         field("m", mp(prim("string"))),
         field("mm", mp(mp(prim("int32"))), optional=True),
         field("dflt", prim("int64"), default="42"),
+        field("temp", ref("Temp"), optional=True),
+        field("stamps", arr(ref("Stamp")), optional=True),
     ], includes=["Inner"]),
     record("Annotated", [
         field("id", prim("int64"), optional=True),
@@ -108,6 +113,8 @@ resources = [
     resource("fam.strs", [("strs", ("k", prim("string")))], ref("Nested"), ALL_REST()),
     resource("fam.byname", [("byName", ("name", ref("Name")))], ref("Nested"), ALL_REST(True)),
     resource("fam.bycolor", [("byColor", ("color", ref("Color")))], ref("Inner"), [m("get", True), m("update", True), m("delete", True), m("batch_get", False), m("batch_delete", False)]),
+    resource("fam.bytemp", [("byTemp", ("t", ref("Temp")))], ref("Inner"), [m("get", True), m("create", False), m("update", True), m("delete", True), m("batch_get", False), m("batch_update", False), m("batch_delete", False),
+        finder("near", [field("t", ref("Temp")), field("stamp", ref("Stamp"), optional=True)], schema=ref("Inner"))]),
     resource("fam.cks", [("cks", ("ck", ref("CK")))], ref("Nested"), ALL_REST()),
     resource("fam.single", [("single", None)], ref("Nested"), [m("get", False), m("update", False), m("partial_update", False), m("delete", False),
         action("reset", [field("hard", prim("bool"))], ret=prim("int32"))]),
